@@ -105,22 +105,28 @@ def sys_case(draw, stats=False, low=False):
     vals = [gen.fs(round(F(v))) for v in spec["state"]["values"]]
     spec = dict(spec, state={"values": vals, "units": "molecule"})
     return {"sys": spec, "seed": draw(st.integers(0, 2 ** 32 - 1)), "route": draw(st.sampled_from(["ctor", "dict"])),
-            "mode": draw(st.sampled_from(["auto", "none"]))}
+            "mode": draw(st.sampled_from(["auto", "none"])),
+            # the unit system of the script / output: the physics (propensities in molecules and seconds) must not depend on it
+            "out": draw(st.sampled_from([dict(si.DEFAULT_SYS), dict(si.DEFAULT_SYS)])) if draw(st.booleans()) else draw(gen.us_mild)}
 
 
 def run_engine(c, kind, n_iter, dt=1e-3, tmax=None):
     system = B.build_system(c["sys"], c["route"])
-    script = S.RDScript(system, [0], time_step=dt, t_max=(1e9 if tmax is None else tmax), sampling_policy="on_iteration",
-                        rng_seed=c["seed"], init_state_processing=c["mode"])
+    script = S.RDScript(system, [0], time_step="%r s" % dt, t_max="%r s" % (1e9 if tmax is None else tmax), sampling_policy="on_iteration",
+                        rng_seed=c["seed"], init_state_processing=c["mode"], units_system=B.US(c.get("out", si.DEFAULT_SYS)))
     return sim.drive(script, kind, n_iter)
 
 
 def to_int_states(traj, n):
-    t = [float(v) for v in traj.t.value]
-    raw = [float(v) for v in traj.data.value]
+    """times in seconds, states in molecules (whole numbers restored after the unit conversion of the output)"""
+    t = si.si_floats(traj.t)
+    raw = si.si_floats(traj.data)
     states = []
     for k in range(len(t)):
-        row = raw[k * n:(k + 1) * n]
+        row = []
+        for v in raw[k * n:(k + 1) * n]:
+            r = round(v)
+            row.append(float(r) if abs(v - r) <= 1e-9 * max(1.0, abs(v)) else v)
         states.append(row)
     return t, states
 
